@@ -1,6 +1,8 @@
 package opset13
 
 import (
+	"runtime"
+
 	"github.com/advancedclimatesystems/gonnx/onnx"
 	"github.com/advancedclimatesystems/gonnx/ops"
 	"gorgonia.org/tensor"
@@ -53,6 +55,10 @@ func (op *PRelu) Apply(inputs []tensor.Tensor) ([]tensor.Tensor, error) {
 	default:
 		return nil, ops.ErrInvalidInputType(0, x.Dtype().String(), op)
 	}
+
+	// Data() derives its slice from a uintptr: the broadcast operands must stay reachable while they are read.
+	runtime.KeepAlive(x)
+	runtime.KeepAlive(slope)
 
 	if err != nil {
 		return nil, err
